@@ -90,20 +90,28 @@ def check(F, rep):
         fail_targets = [tg for t in ctests for _, tg in t.failure]
         byp = [r for r in rets_ok if any(r in f.reachable(tg, removed_blocks={stores[0][0]}) for tg in fail_targets)]
         rep.ob("overdraft", not byp, site(f, cb), "no return from the Err edge bypasses the store", skey(F, f, "err-always-stores"))
-    # live update
-    bw = field_writes(f, "bucket")
-    rep.exact("live-update", "assignments to this.bucket", len(bw), 1)
-    clears = [(b, i, s) for b, i, s in ws if (b, i, s) not in stores]
-    fc = find_calls(f, BUCKET + "::from_config")
-    rep.exact("live-update", "Bucket::from_config calls in poll_read", len(fc), 1)
-    for b, i, s in bw:
-        if fc:
-            fts, _ = call_result_tests(f, fc[0][0])
-            src = copy_sources(f, op_base(s["rv"]["o"])) if s["rv"]["k"] == "use" and s["rv"]["o"]["k"] in ("copy", "move") else set()
-            rep.ob("live-update", requires(f, b, fts) and bool(src) and all(x[0] == "call" and x[1] == BUCKET + "::from_config" for x in src), site(f, b),
-                   "the installed bucket is replaced only by a successfully validated configuration (an invalid live update keeps the current limit); sources %s" % sorted(map(str, src)), skey(F, f, "update-requires-valid"))
-        ok = any(f.dominates(b, cb_) and f.postdominates(cb_, b) for cb_, _, _ in clears)
-        rep.ob("live-update", ok, site(f, b), "replacing the bucket clears the pending sleep on the same path", skey(F, f, "update-clears"))
+    # live update: wherever RateLimited.bucket is re-assigned (poll_read itself or a helper)
+    RLT = ST + "RateLimited"
+    bws = [x for x in field_accesses(F, RLT, "bucket", crates=["iroh_relay"]) if x[3] == "write"]
+    rep.floor("live-update", "assignments to RateLimited.bucket", len(bws), 1)
+    for g, b, i, kind, s in bws:
+        rep.fn(g)
+        fc = find_calls(g, BUCKET + "::from_config")
+        ok = False
+        src = set()
+        if len(fc) == 1:
+            fts, _ = call_result_tests(g, fc[0][0])
+            src = copy_sources(g, op_base(s["rv"]["o"])) if s["rv"]["k"] == "use" and s["rv"]["o"]["k"] in ("copy", "move") else set()
+            ok = requires(g, b, fts) and bool(src) and all(x[0] == "call" and x[1] == BUCKET + "::from_config" for x in src)
+        rep.ob("live-update", ok, site(g, b),
+               "the installed bucket is replaced only by a successfully validated configuration (an invalid live update keeps the current limit); sources %s" % sorted(map(str, src)), skey(F, g, "update-requires-valid"))
+        gclears = []
+        for cb_, ci, cs in field_writes(g, "bucket_refilled"):
+            csrc = copy_sources(g, op_base(cs["rv"]["o"])) if cs["rv"]["k"] == "use" and cs["rv"]["o"]["k"] in ("copy", "move") else ({("agg", "None")} if cs["rv"]["k"] == "agg" and cs["rv"].get("variant") == "None" else set())
+            if not any(x[0] == "agg" and x[1].endswith("Some") for x in csrc):
+                gclears.append(cb_)
+        ok = any((g.dominates(b, cb_) and g.postdominates(cb_, b)) or (g.dominates(cb_, b) and g.postdominates(b, cb_)) for cb_ in gclears)
+        rep.ob("live-update", ok, site(g, b), "replacing the bucket clears the pending sleep on the same path", skey(F, g, "update-clears"))
 
     # ---- Bucket invariants
     sites = [x for x in ctor_sites(F, BUCKET) if not x[0].derived]
